@@ -14,10 +14,10 @@
                                  abstractions, same labels — under the local invariant Inv
      C04_refines_sax_run         along every run on which Inv holds
      C04_prints_admitted_partial the labels of a run are printed by a Sax execution; _partial: preservation
-                                 of Inv by steps is a premise (it follows from Typed + Topo of C01), and the
-                                 execution starts from α (init_config p) rather than from sax_init p
-                                 (full statement: SaxRefine.prints_admitted_stmt)
-     C04_prints_admitted_checked no premise: Inv is checked by `inv_b` before every step of the run
+                                 of Inv by steps is a premise (it follows from Typed + Topo of C01); the
+                                 execution starts from the program's own SAX configuration Sax.sax_init p
+                                 (C04_alpha_init; full statement: SaxRefine.prints_admitted_stmt)
+     C04_prints_admitted_checked(_init)  no premise: Inv is checked by `inv_b` before every step of the run
    What rests on the correspondence only: that the real interpreter's prints and their order are the
    model's (suite `run`); results for programs with drop / split / multi-provider declarations; results in
    the synchronous modes (agreement of the modes' print multisets is C03's); uniqueness of the multiset. *)
@@ -70,15 +70,24 @@ Proof. exact refines_sax_run. Qed.
 Theorem C04_prints_admitted_partial : forall D F,
   (forall c ch c', Inv D c -> step Async D F c ch = SStep c' -> Inv D c') ->
   forall (p : program) fuel pick, Inv D (init_config p) ->
-  exists C', sax_steps F false (α (init_config p))
+  exists C', sax_steps F false (sax_init p)
                (labels (res_config (exec_run fuel pick Async D F (init_config p)))) C'.
 Proof. exact prints_admitted_partial. Qed.
+
+Theorem C04_alpha_init : forall p : program, α (init_config p) ≡ₚ sax_init p.
+Proof. exact alpha_init. Qed.
 
 Theorem C04_prints_admitted_checked : forall fuel pick D F c r,
   exec_checked fuel pick D F c = Some r ->
   exec_run fuel pick Async D F c = r /\
   exists ls, sax_steps F false (α c) ls (α (res_config r)) /\ labels (res_config r) = labels c ++ ls.
 Proof. exact prints_admitted_checked. Qed.
+
+Theorem C04_prints_admitted_checked_init : forall fuel pick (p : program) r,
+  exec_checked fuel pick (p_types p) (p_funs p) (init_config p) = Some r ->
+  exec_run fuel pick Async (p_types p) (p_funs p) (init_config p) = r /\
+  sax_steps (p_funs p) false (sax_init p) (labels (res_config r)) (α (res_config r)).
+Proof. exact prints_admitted_checked_init. Qed.
 
 Theorem C04_inv_checker_sound : forall D c, inv_b D c = true -> Inv D c.
 Proof. exact inv_b_sound. Qed.
@@ -91,7 +100,7 @@ Proof. vm_compute. reflexivity. Qed.
 Example C04_ex_checked_run_other_schedule : checked_labels pick_last = Some ["echoed"; "done"; "succ"; "zero"].
 Proof. vm_compute. reflexivity. Qed.
 Example C04_ex_sax_admits : exists p' C', ex_prog = Some p' /\
-  sax_steps (p_funs p') false (α (init_config p')) ["echoed"; "done"; "succ"; "zero"] C'.
+  sax_steps (p_funs p') false (sax_init p') ["echoed"; "done"; "succ"; "zero"] C'.
 Proof. exact ex_sax_admits. Qed.
 Example C04_ex_trace_shape :
   length ex_trace = 37%nat /\
@@ -111,6 +120,8 @@ Print Assumptions C04_refines_sax.
 Print Assumptions C04_refines_sax_run.
 Print Assumptions C04_prints_admitted_partial.
 Print Assumptions C04_prints_admitted_checked.
+Print Assumptions C04_prints_admitted_checked_init.
+Print Assumptions C04_alpha_init.
 Print Assumptions C04_inv_checker_sound.
 Print Assumptions C04_ex_sax_admits.
 Print Assumptions C04_ex_hb_print_edge.
